@@ -55,6 +55,11 @@ pub fn differential(ctx: &mut Ctx, kind: Kind, b: &[u8], how: &str) -> Result<()
         Kind::Sharks => "star_sharks::Share::try_from",
     };
     ctx.stats.probe("differential_decodes");
+    {
+        // state cell: decoder x fault class x (real accepts, parser accepts)
+        let class = how.split(|c: char| c == ' ' || c == '@' || c == ':').next().unwrap_or("");
+        ctx.stats.state(crate::choices::mix(crate::choices::str_hash(name), crate::choices::mix(crate::choices::str_hash(class), (real.is_some() as u64) * 2 + model.is_some() as u64)));
+    }
     match (&real, &model) {
         (None, None) => {
             ctx.stats.probe("both_reject");
@@ -304,7 +309,7 @@ impl Property for C08 {
         "A + B (reports, adss shares and sharks shares crossing the simulated wire)"
     }
     fn rule(&self) -> &'static str {
-        "one run = a world-A history (dup/reorder + 30% corrupted deliveries) plus one adss and one sharks dealing; every honest delivery must decode to the sender's value and match the documented layout as read by an independent parser; around each honest encoding the fault set is ENUMERATED (every prefix, every boundary value in each of the 7 length/threshold fields, 4 byte faults at every offset, boundary/out-of-range field elements in every element slot, extensions, splices) and real decoder and parser must agree on accept/reject and on the canonical re-encoding. quick enumerates fully around one report per run and samples around the others; thorough enumerates around all. non-trivial = a non-canonical input was accepted by both and re-encoded canonically; distinct = distinct event digests"
+        "one run = a world-A history (dup/reorder + 30% corrupted deliveries) plus one adss and one sharks dealing; every honest delivery must decode to the sender's value and match the documented layout as read by an independent parser; around each honest encoding the fault set is ENUMERATED (every prefix, every boundary value in each of the 7 length/threshold fields, 4 byte faults at every offset, boundary/out-of-range field elements in every element slot, extensions, splices) and real decoder and parser must agree on accept/reject and on the canonical re-encoding. quick enumerates fully around one report per run and samples around the others; thorough enumerates around all. non-trivial = a non-canonical input was accepted by both and re-encoded canonically; distinct = distinct event digests; states = (decoder, fault class, accept/reject by decoder and by parser) cells"
     }
     fn runs(&self, thorough: bool) -> u64 {
         if thorough { 40_000 } else { 3_000 }
